@@ -135,61 +135,64 @@ Record st := mkst {
   excess : N;                    (* announced counts / lengths beyond what the input delivered *)
   um : N;                        (* the largest single allocation unit so far (an element, a pair, a pointer target ...) *)
   rsv : N;                       (* bytes reserved up front by count-driven make / grow (reporting only: [alloc] charges them slot by slot) *)
-  corrupt : bool }.              (* a value that violates Go's own invariants was produced *)
+  corrupt : bool;                (* a value that violates Go's own invariants was produced *)
+  lstop : bool }.                (* this decoder's element loops stop at the first error (fixed for a run: fx_loop) *)
 
 Definition set_rest (s : st) (r : bytes) (e : option ek) (d : N) : st :=
-  mkst r e (simple s) (rrefs s) (rclasses s) (alloc s) (steps s + d) (spin s) (excess s) (um s) (rsv s) (corrupt s).
+  mkst r e (simple s) (rrefs s) (rclasses s) (alloc s) (steps s + d) (spin s) (excess s) (um s) (rsv s) (corrupt s) (lstop s).
 Definition set_error (s : st) (k : ek) : st :=              (* if dec.Error == nil { dec.Error = k } *)
   mkst (rest s) (match err s with None => Some k | e => e end) (simple s) (rrefs s) (rclasses s)
-       (alloc s) (steps s) (spin s) (excess s) (um s) (rsv s) (corrupt s).
+       (alloc s) (steps s) (spin s) (excess s) (um s) (rsv s) (corrupt s) (lstop s).
 Definition force_error (s : st) (k : ek) : st :=            (* dec.Error = k *)
-  mkst (rest s) (Some k) (simple s) (rrefs s) (rclasses s) (alloc s) (steps s) (spin s) (excess s) (um s) (rsv s) (corrupt s).
+  mkst (rest s) (Some k) (simple s) (rrefs s) (rclasses s) (alloc s) (steps s) (spin s) (excess s) (um s) (rsv s) (corrupt s) (lstop s).
 Definition add_ref (s : st) (r : rent) : st :=              (* dec.AddReference(o) *)
   if simple s then s else
-  mkst (rest s) (err s) (simple s) (r :: rrefs s) (rclasses s) (alloc s) (steps s) (spin s) (excess s) (um s) (rsv s) (corrupt s).
+  mkst (rest s) (err s) (simple s) (r :: rrefs s) (rclasses s) (alloc s) (steps s) (spin s) (excess s) (um s) (rsv s) (corrupt s) (lstop s).
 Definition force_ref (s : st) (r : rent) : st :=            (* dec.refer.Add(o) without the IsSimple test: never used by /repo *)
-  mkst (rest s) (err s) (simple s) (r :: rrefs s) (rclasses s) (alloc s) (steps s) (spin s) (excess s) (um s) (rsv s) (corrupt s).
+  mkst (rest s) (err s) (simple s) (r :: rrefs s) (rclasses s) (alloc s) (steps s) (spin s) (excess s) (um s) (rsv s) (corrupt s) (lstop s).
 Definition add_class (s : st) (c : cinfo) : st :=
-  mkst (rest s) (err s) (simple s) (rrefs s) (c :: rclasses s) (alloc s) (steps s) (spin s) (excess s) (um s) (rsv s) (corrupt s).
+  mkst (rest s) (err s) (simple s) (rrefs s) (c :: rclasses s) (alloc s) (steps s) (spin s) (excess s) (um s) (rsv s) (corrupt s) (lstop s).
 (* an allocation of n bytes for one unit (pointer target, box, element slot): it is also a step *)
 Definition add_alloc (s : st) (n : N) : st :=
   mkst (rest s) (err s) (simple s) (rrefs s) (rclasses s) (alloc s + n) (steps s + 1) (spin s) (excess s)
-       (N.max (um s) n) (rsv s) (corrupt s).
+       (N.max (um s) n) (rsv s) (corrupt s) (lstop s).
 (* the slot a count-driven allocation reserved for the iteration that starts now (nothing for slot 0) *)
 Definition charge (s : st) (slot : N) : st := if (slot =? 0)%N then s else add_alloc s slot.
 Definition add_rsv (s : st) (n : N) : st :=
-  mkst (rest s) (err s) (simple s) (rrefs s) (rclasses s) (alloc s) (steps s) (spin s) (excess s) (um s) (rsv s + n) (corrupt s).
+  mkst (rest s) (err s) (simple s) (rrefs s) (rclasses s) (alloc s) (steps s) (spin s) (excess s) (um s) (rsv s + n) (corrupt s) (lstop s).
 Definition add_excess (s : st) (n : N) : st :=
-  mkst (rest s) (err s) (simple s) (rrefs s) (rclasses s) (alloc s) (steps s) (spin s) (excess s + n) (um s) (rsv s) (corrupt s).
+  mkst (rest s) (err s) (simple s) (rrefs s) (rclasses s) (alloc s) (steps s) (spin s) (excess s + n) (um s) (rsv s) (corrupt s) (lstop s).
 Definition add_steps (s : st) (n : N) : st :=
-  mkst (rest s) (err s) (simple s) (rrefs s) (rclasses s) (alloc s) (steps s + n) (spin s) (excess s) (um s) (rsv s) (corrupt s).
+  mkst (rest s) (err s) (simple s) (rrefs s) (rclasses s) (alloc s) (steps s + n) (spin s) (excess s) (um s) (rsv s) (corrupt s) (lstop s).
 Definition set_corrupt (s : st) : st :=
-  mkst (rest s) (err s) (simple s) (rrefs s) (rclasses s) (alloc s) (steps s) (spin s) (excess s) (um s) (rsv s) true.
+  mkst (rest s) (err s) (simple s) (rrefs s) (rclasses s) (alloc s) (steps s) (spin s) (excess s) (um s) (rsv s) true (lstop s).
 Definition set_simple (s : st) (b : bool) : st :=           (* dec.Simple(b): also dec.Reset() *)
-  mkst (rest s) (err s) b [] [] (alloc s) (steps s) (spin s) (excess s) (um s) (rsv s) (corrupt s).
+  mkst (rest s) (err s) b [] [] (alloc s) (steps s) (spin s) (excess s) (um s) (rsv s) (corrupt s) (lstop s).
 Definition reset_refs (s : st) : st :=                      (* dec.Reset() *)
-  mkst (rest s) (err s) (simple s) [] [] (alloc s) (steps s) (spin s) (excess s) (um s) (rsv s) (corrupt s).
+  mkst (rest s) (err s) (simple s) [] [] (alloc s) (steps s) (spin s) (excess s) (um s) (rsv s) (corrupt s) (lstop s).
 (* n iterations of a loop in a state where nothing can change any more: each costs a step and
    [per] bytes *)
 Definition spin_by (s : st) (n : N) (per : N) : st :=
   mkst (rest s) (err s) (simple s) (rrefs s) (rclasses s) (alloc s + n * per) (steps s + n) (spin s + n)
-       (excess s + n) (N.max (um s) per) (rsv s) (corrupt s).
+       (excess s + n) (N.max (um s) per) (rsv s) (corrupt s) (lstop s).
 (* n iterations not run at all (repaired loops stop on error): their slots were allocated all the same *)
 Definition skip_by (s : st) (n : N) (slot : N) : st :=
   mkst (rest s) (err s) (simple s) (rrefs s) (rclasses s) (alloc s + n * slot) (steps s) (spin s)
-       (excess s + n) (N.max (um s) slot) (rsv s) (corrupt s).
+       (excess s + n) (N.max (um s) slot) (rsv s) (corrupt s) (lstop s).
 (* the input ended [ex] units short of an announced length: everything left is consumed, io.EOF is set,
    and [a] = unit * (what was announced) bytes were reserved *)
 Definition short_by (s : st) (e : option ek) (ex : N) (a : N) (unit : N) : st :=
   mkst [] e (simple s) (rrefs s) (rclasses s) (alloc s + a) (steps s + 1) (spin s) (excess s + ex)
-       (N.max (um s) unit) (rsv s) (corrupt s).
+       (N.max (um s) unit) (rsv s) (corrupt s) (lstop s).
 
 Definition has_err (s : st) : bool := match err s with Some _ => true | None => false end.
 (* input exhausted and the sticky error set: NextByte returns 0 and every decoder ends in decodeError,
    which does nothing once Error is set *)
 Definition stuck (s : st) : bool := match rest s with [] => has_err s | _ => false end.
 
-Definition init (bs : bytes) (smp : bool) : st := mkst bs None smp [] [] 0 0 0 0 0 0 false.
+Definition set_lstop (s : st) (b : bool) : st :=
+  mkst (rest s) (err s) (simple s) (rrefs s) (rclasses s) (alloc s) (steps s) (spin s) (excess s) (um s) (rsv s) (corrupt s) b.
+Definition init (bs : bytes) (smp : bool) : st := mkst bs None smp [] [] 0 0 0 0 0 0 false false.
 
 (* ------------------------------------------------------------------ results *)
 
@@ -238,8 +241,8 @@ Fixpoint bnd {A B} (r : out A) (k : A -> st -> out B) : out B :=
 
 (* behaviour switches for the repairs that do not replace a panic (count checks, loops, allocations) *)
 Record fixes := mkfx {
-  fx_count : msite -> bool;   (* per site: a count that is negative or larger than the bytes left (in-memory input) is a decode error *)
-  fx_loop : bool;       (* count loops stop once dec.Error is set *)
+  fx_count : msite -> bool;   (* per site: a negative count is a decode error and nothing is sized by the wire alone *)
+  fx_loop : bool;       (* every element loop stops at the first decode error *)
   fx_next : bool;       (* next(n) does not allocate n bytes when the in-memory input is shorter *)
   fx_str : bool;        (* readStringAsBytes does not allocate utf16Length*3 when the in-memory input ended *)
   fx_strmap : bool;     (* a reference to a map is not formatted with fmt.Sprint into a string (it may contain itself) *)
@@ -258,7 +261,7 @@ Definition hashable (v : aval) : bool :=
 
 (* ------------------------------------------------------------------ primitives on the state *)
 
-Definition ek_of (e : errk) : ek := match e with EEOF => KEOF | EInvalidUTF8 => KUtf8 end.
+Definition ek_of (e : errk) : ek := match e with EEOF => KEOF | EInvalidUTF8 => KUtf8 | ENegLen => KDecode end.
 Definition merge (old : option ek) (new : option errk) : option ek :=
   match old with Some _ => old | None => option_map ek_of new end.
 
@@ -296,7 +299,8 @@ Definition next_n (fx : fixes) (n : Z) (s : st) : out (option bytes) :=
       (* remain < n: data = make([]byte, remain, n); copy; loadMore fails: everything left, io.EOF *)
       let e := merge (err s) (Some EEOF) in
       let ex := Z.to_N (n - Z.of_nat (length w)) in
-      if fx_next fx then ROk (Some w) (short_by s e ex 0 1)
+      (* repaired: the copy reserves min(n, remain + len(dec.buf)) and append grows it *)
+      if fx_next fx then ROk (Some w) (short_by s e 0 (N.min (Z.to_N n) (2 * N.of_nat (length w))) 2)
       else if (max_alloc <? Z.to_N n)%N then RHaz (HAllocRange MNext) s (ROk (Some w) (short_by s e ex 0 1))
       else ROk (Some w) (short_by s e ex (Z.to_N n) 1)
   end.
@@ -341,7 +345,8 @@ Definition read_str_slow (fx : fixes) (n : Z) (w : bytes) (s : st) : out (option
       let want := wrap_int (n1 * 3) in
       let e := merge (err s) (Some EEOF) in
       let ex := Z.to_N n1 in
-      if fx_str fx then ROk (Some w) (short_by s e ex 0 3)
+      (* repaired: capacity = utf16Length*3 unless that overflowed or exceeds len(buf)+len(dec.buf) *)
+      if fx_str fx then ROk (Some w) (short_by s e 0 (N.min (3 * ex) (2 * N.of_nat (length w))) 3)
       else if (want <? 0)%Z then RHaz (HMakeNeg MStr) s (ROk (Some w) (short_by s e ex 0 3))
       else if (max_alloc <? Z.to_N want)%N then RHaz (HAllocRange MStr) s (ROk (Some w) (short_by s e ex 0 3))
       else ROk (Some w) (short_by s e ex (N.min (Z.to_N want) (3 * ex)) 3)
@@ -524,8 +529,14 @@ Fixpoint reg_lookup (nm : bytes) (l : list (bytes * shape)) : option shape :=
 
 (* a count read from the wire, about to size an allocation of [per] bytes per element at site [m].
    Result: the count the loop will run to. *)
+Definition prealloc_max : N := 16.     (* minPrealloc of io/count.go *)
+
 Definition counted (m : msite) (per : N) (negpanics : bool) (n : Z) (s : st) : out Z :=
-  if fx_count fx m && ((n <? 0)%Z || negb (fits (rest s) n)) then ROk 0%Z (set_error s KDecode)
+  if fx_count fx m then
+    (* repaired (mode-independent): a negative count is a decode error; at most prealloc_max elements are
+       reserved on the word of the wire, the container grows as the elements really arrive *)
+    if (n <? 0)%Z then ROk 0%Z (set_error s KDecode)
+    else ROk n (add_rsv s (N.min (Z.to_N n) prealloc_max * per))
   else if (n <? 0)%Z then
     if negpanics then RHaz (HMakeNeg m) s (ROk 0%Z (set_error s KDecode)) else ROk n s
   else if (max_alloc <? Z.to_N n * per)%N then
@@ -540,8 +551,8 @@ Definition counted (m : msite) (per : N) (negpanics : bool) (n : Z) (s : st) : o
    [per]: what an iteration allocates when nothing is left to read *)
 Fixpoint loop (k : nat) (body : st -> out unit) (slot per : N) (n : Z) (s : st) : out unit :=
   if (n <=? 0)%Z then ROk tt s
+  else if lstop s && has_err s then ROk tt s
   else if stuck s then ROk tt (spin_by s (Z.to_N n) (slot + per))
-  else if fx_loop fx && has_err s then ROk tt (skip_by s (Z.to_N n) slot)
   else match k with
        | O => RFuel
        | S k' => bnd (body (charge s slot)) (fun _ s1 => loop k' body slot per (n - 1) s1)
@@ -552,8 +563,8 @@ Fixpoint iter_names (body : bytes -> st -> out unit) (slot : N) (l : list bytes)
   match l with
   | [] => ROk tt s
   | nm :: r =>
-    if stuck s then ROk tt (spin_by s (N.of_nat (length l)) slot)
-    else if fx_loop fx && has_err s then ROk tt (skip_by s (N.of_nat (length l)) slot)
+    if lstop s && has_err s then ROk tt s
+    else if stuck s then ROk tt (spin_by s (N.of_nat (length l)) slot)
     else bnd (body nm (charge s slot)) (fun _ s1 => iter_names body slot r s1)
   end.
 Definition over_names (lf : nat) (body : bytes -> st -> out unit) (slot : N) (c : cinfo) (s : st) : out unit :=
@@ -581,8 +592,8 @@ Definition unit_of (r : out aval) : out unit := bnd r (fun _ s => ROk tt s).
 (* dec.ReadStruct(t) *)
 Fixpoint names_loop (k : nat) (n : Z) (acc : list bytes) (s : st) : out (list bytes * N) :=
   if (n <=? 0)%Z then ROk (rev acc, 0%N) s
+  else if lstop s && has_err s then ROk (rev acc, 0%N) s
   else if stuck s then ROk (rev acc, Z.to_N n) (spin_by s (Z.to_N n) 16)
-  else if fx_loop fx && has_err s then ROk (rev acc, 0%N) (skip_by s (Z.to_N n) 16)
   else match k with
        | O => RFuel
        | S k' => bnd (rv SString (add_alloc s 16)) (fun v s1 => names_loop k' (n - 1) (str_of v :: acc) s1)
@@ -672,8 +683,8 @@ Definition map_entry (ks vs : shape) : N := 16 + size ks + size vs.
 Fixpoint map_loop (k : nat) (ks vs : shape) (per : N) (n : Z) (acc : list (bytes * aval)) (s : st)
   : out (list (bytes * aval)) :=
   if (n <=? 0)%Z then ROk (rev acc) s
+  else if lstop s && has_err s then ROk (rev acc) s
   else if stuck s then ROk (rev acc) (spin_by s (Z.to_N n) (map_entry ks vs + per))
-  else if fx_loop fx && has_err s then ROk (rev acc) (skip_by s (Z.to_N n) (map_entry ks vs))
   else match k with
        | O => RFuel
        | S k' =>
@@ -843,7 +854,7 @@ Definition dec_slice (e : shape) (tag : byte) (s : st) : out aval :=
 (* ---- [N]T : arrayDecoder, byteArrayDecoder *)
 Definition dec_array_list (n : nat) (e : shape) (s : st) : out aval :=
   let '(c0, s1) := read_int s in
-  let bad := fx_count fx MArray && ((c0 <? 0)%Z || negb (fits (rest s1) c0)) in
+  let bad := fx_count fx MArray && (c0 <? 0)%Z in
   let c := if bad then 0%Z else c0 in
   let s2 := add_ref (if bad then set_error s1 KDecode else s1) (RPtr (SArray n e)) in
   let body := fun x => unit_of (rv e x) in
@@ -977,9 +988,12 @@ Definition dec_val (fuel : nat) (sh : shape) (s : st) : out aval :=
   if stuck s then ROk ANil (add_alloc s (stuck_alloc sh))
   else let '(t, s1) := next_byte s in dec_tag fuel sh t s1.
 
+(* the decoder at the start of a run *)
+Definition start (bs : bytes) (smp : bool) : st := set_lstop (init bs smp) (fx_loop fx).
+
 (* io.Unmarshal(data, &v) / Formatter{Simple: false}.Unmarshal: decoder.Decode(v); return decoder.Error *)
 Definition unmarshal (fuel : nat) (bs : bytes) (smp : bool) (sh : shape) : out aval :=
-  dec_val fuel sh (init bs smp).
+  dec_val fuel sh (start bs smp).
 
 (* ------------------------------------------------------------------ RPC codecs (rpc/core) *)
 
@@ -1044,8 +1058,8 @@ Definition param_at (m : method) (i : nat) : shape :=
 
 Fixpoint args_loop (fuel k : nat) (m : method) (i : nat) (n : Z) (s : st) : out unit :=
   if (n <=? 0)%Z then ROk tt s
+  else if lstop s && has_err s then ROk tt s
   else if stuck s then ROk tt (spin_by s (Z.to_N n) 32)
-  else if fx_loop fx && has_err s then ROk tt (skip_by s (Z.to_N n) 32)
   else match k with
        | O => RFuel
        | S k' =>
@@ -1072,9 +1086,9 @@ Definition names_method : method := mkm tilde [] false.
 (* serviceCodec.Decode(request, context): true = an error is returned *)
 Definition service_decode (fuel : nat) (methods : list method) (missing : bool) (bs : bytes) : out bool :=
   match bs with
-  | [] => ROk false (init bs false)
+  | [] => ROk false (start bs false)
   | _ =>
-    read_header fuel (init bs false) (fun tag h s =>
+    read_header fuel (start bs false) (fun tag h s =>
     if tag_is tag "C" then
       header_simple h (fun smp =>
       let s1 := if smp then set_simple s true else s in
@@ -1102,7 +1116,7 @@ Fixpoint results_loop (fuel : nat) (rts : list shape) (n : Z) (s : st) : out uni
 
 (* clientCodec.Decode(response, context): true = an error is returned *)
 Definition client_decode (fuel : nat) (rts : list shape) (bs : bytes) : out bool :=
-  read_header fuel (init bs false) (fun tag h s =>
+  read_header fuel (start bs false) (fun tag h s =>
   if tag_is tag "R" then
     header_simple h (fun smp =>
     let s1 := if smp then set_simple s true else s in
